@@ -1,8 +1,9 @@
 import VaxisModel.Model.WrapHeap
+import VaxisModel.Lemmas.Wrap
 
 /-! Frame lemmas for the heap-level scanner: a `Scan` writes only into arrays it allocated itself. -/
 namespace VaxisModel.Lemmas.WrapHeap
-open VaxisModel.Model.Wrap VaxisModel.Model.WrapHeap
+open VaxisModel.Model.Wrap VaxisModel.Model.WrapHeap VaxisModel.Lemmas.Wrap
 
 /-- A slice the scanner may append to without touching an array that existed before (`n0` arrays):
 it is full (any non-empty `append` allocates) or its array is younger; and its array exists. -/
@@ -454,5 +455,222 @@ theorem splitLongH_refines (grow : Nat → Nat → Nat) (width : Nat) (word : Sl
       rw [o1] at a
       rw [r1] at b
       exact ⟨a, by rw [b]; simp, c1, c2, c3⟩
+
+/-! ### the whole loop of `Scan` on the heap computes `Model.Wrap.scanLoop` -/
+
+local notation "rd" => VaxisModel.Model.WrapHeap.read
+
+theorem read_sub (h : Heap) (s : Slice) (a b : Nat) (hb : b ≤ s.len) :
+    rd h (sub s a b) = ((rd h s).drop a).take (b - a) := by
+  unfold VaxisModel.Model.WrapHeap.read sub
+  simp only
+  rw [List.drop_take, List.drop_drop, List.take_take]
+  congr 1
+  omega
+
+theorem WFS_sub {h : Heap} {s : Slice} (w : WFS h s) (a b : Nat) (hab : a ≤ b) (hb : b ≤ s.len) : WFS h (sub s a b) := by
+  have := w.1; have := w.2
+  unfold WFS sub
+  simp only
+  constructor <;> omega
+
+theorem take_min_length (l : List Cell) (n : Nat) : l.take (min n l.length) = l.take n := by
+  by_cases h : n ≤ l.length
+  · rw [Nat.min_eq_left h]
+  · rw [Nat.min_eq_right (by omega), List.take_of_length_le (Nat.le_refl _), List.take_of_length_le (by omega)]
+
+theorem drop_min_length (l : List Cell) (n : Nat) : l.drop (min n l.length) = l.drop n := by
+  by_cases h : n ≤ l.length
+  · rw [Nat.min_eq_left h]
+  · rw [Nat.min_eq_right (by omega), List.drop_eq_nil_of_le (Nat.le_refl _), List.drop_eq_nil_of_le (by omega)]
+
+theorem take_trim (seg : List Cell) : seg.take (trimRight seg).length = trimRight seg := by
+  conv => lhs; arg 2; rw [← trim_append_trailing seg]
+  exact List.take_left' rfl
+
+theorem trim_len_le (seg : List Cell) : (trimRight seg).length ≤ seg.length := by
+  have := congrArg List.length (trim_append_trailing seg)
+  simp only [List.length_append] at this
+  omega
+
+theorem WFS_frame {h h' : Heap} {s : Slice} (e : arrOf h' s.arr = arrOf h s.arr) (w : WFS h s) : WFS h' s := by
+  unfold WFS at *; rw [e]; exact w
+
+/-- The segmentation function of the heap model as an oracle of the value-level model (no state). -/
+def oracleOf (o : List Cell → Nat × Bool) : Unit → List Cell → Nat × Bool × Unit :=
+  fun _ l => ((o l).1, (o l).2, ())
+
+/-- Same outcome: both run out of fuel, or both return with slices denoting the model's lists. -/
+def ScanRel : Option (Heap × St) → Scan Unit → Prop
+  | none, .hang => True
+  | some (h', st'), .line r _ t => rd h' st'.rest = r ∧ rd h' st'.token = t
+  | _, _ => False
+
+theorem scanLoopH_refines (grow : Nat → Nat → Nat) (o : List Cell → Nat × Bool) (width : Nat) (h0 : Heap) (n0 : Nat)
+    (hn0 : 0 < n0) :
+    ∀ (fuel : Nat) (h : Heap) (st : St) (w : Nat), n0 ≤ h.length → (∀ j, j < n0 → arrOf h j = arrOf h0 j) →
+      st.rest.arr < n0 → WFS h0 st.rest → Good n0 h st.token → WFS h st.token →
+      ScanRel (scanLoopH grow o width fuel h st w)
+        (scanLoop (oracleOf o) () width fuel (rd h0 st.rest) () (rd h st.token) w) := by
+  intro fuel
+  induction fuel with
+  | zero => intro h st w _ _ _ _ _ _; simp [scanLoopH, scanLoop, ScanRel]
+  | succ n ih =>
+    intro h st w hn hfr hra wr gt wt
+    have hR : rd h st.rest = rd h0 st.rest := read_frame (hfr _ hra)
+    have hRl := read_length wr
+    unfold scanLoopH
+    extract_lets r k seg rest word trSpace wordLen spaceLen a b c seg' t1 t w1 t2
+    unfold scanLoop
+    extract_lets pr pseg prest pbr pword ptr pwl psl psp ptok pw
+    -- the slices of this iteration denote the lists of the value-level loop
+    have hk : k ≤ st.rest.len := Nat.min_le_right _ _
+    have hr : r = o (rd h0 st.rest) := by show o (rd h st.rest) = _; rw [hR]
+    have hpr1 : pr.1 = r.1 := by rw [hr]; rfl
+    have hpbr : pbr = r.2 := by rw [hr]; rfl
+    have hpseglen : pseg.length = k := by
+      show (List.take pr.1 (rd h0 st.rest)).length = min r.1 st.rest.len
+      rw [List.length_take, hpr1]; show min r.1 (Model.WrapHeap.read h0 st.rest).length = _; rw [hRl]
+    have hseg : rd h seg = pseg := by
+      show rd h (sub st.rest 0 k) = _
+      rw [read_sub h st.rest 0 k hk, hR, List.drop_zero, Nat.sub_zero]
+      show List.take (min r.1 st.rest.len) _ = List.take pr.1 _
+      rw [← hRl, hpr1]; exact take_min_length _ _
+    have hrestarr : rest.arr < n0 := by
+      show (if k < st.rest.len then sub st.rest k st.rest.len else emptySlice).arr < n0
+      split
+      · exact hra
+      · exact hn0
+    have hrestw : WFS h0 rest := by
+      show WFS h0 (if k < st.rest.len then sub st.rest k st.rest.len else emptySlice)
+      split
+      · exact WFS_sub wr _ _ (by omega) (Nat.le_refl _)
+      · exact ⟨by simp [emptySlice], by simp [emptySlice]⟩
+    have hrest : rd h rest = prest := by
+      show rd h (if k < st.rest.len then sub st.rest k st.rest.len else emptySlice) = List.drop pr.1 (rd h0 st.rest)
+      have hd : List.drop pr.1 (rd h0 st.rest) = List.drop k (rd h0 st.rest) := by
+        show _ = List.drop (min r.1 st.rest.len) _
+        rw [← hRl, hpr1]; exact (drop_min_length _ _).symm
+      rw [hd]
+      split
+      · rw [read_sub h st.rest k st.rest.len (Nat.le_refl _), hR]
+        apply List.take_of_length_le
+        rw [List.length_drop]; show (Model.WrapHeap.read h0 st.rest).length - k ≤ _; rw [hRl]; exact Nat.le_refl _
+      · rw [show rd h emptySlice = [] from read_empty h]
+        exact (List.drop_eq_nil_of_le (by show (Model.WrapHeap.read h0 st.rest).length ≤ k; rw [hRl]; omega)).symm
+    have hwl : word.len = pword.length := by
+      show (trimRight (Model.WrapHeap.read h seg)).length - 0 = _
+      rw [Nat.sub_zero]; show (trimRight (rd h seg)).length = _; rw [hseg]
+    have hseglen : seg.len = k := by show k - 0 = k; omega
+    have hwordle : pword.length ≤ k := by rw [← hpseglen]; exact trim_len_le pseg
+    have hword : rd h word = pword := by
+      show rd h (sub seg 0 (trimRight (Model.WrapHeap.read h seg)).length) = _
+      rw [read_sub h seg 0 _ (by show (trimRight (rd h seg)).length ≤ seg.len; rw [hseg, hseglen]; exact hwordle)]
+      rw [List.drop_zero, Nat.sub_zero]; show List.take (trimRight (rd h seg)).length (rd h seg) = _
+      rw [hseg]; exact take_trim pseg
+    have htr : rd h trSpace = ptr := by
+      show rd h (sub seg word.len seg.len) = List.drop pword.length pseg
+      rw [read_sub h seg word.len seg.len (Nat.le_refl _), hseg, hwl]
+      apply List.take_of_length_le
+      rw [List.length_drop, hpseglen, hseglen]; exact Nat.le_refl _
+    have hwordLen : wordLen = pwl := by show sumW (rd h word) = sumW pword; rw [hword]
+    have hspaceLen : spaceLen = psl := by show sumW (rd h trSpace) = sumW ptr; rw [htr]
+    have hfrOld : ∀ (h1 : Heap) (x : Slice), Frame n0 h h1 → x.arr < n0 → rd h1 x = rd h x :=
+      fun h1 x f hx => read_frame (f.2 _ hx)
+    have hsegarr : seg.arr < n0 := hra
+    have htrarr : trSpace.arr < n0 := hra
+    have hwordarr : word.arr < n0 := hra
+    rw [hwordLen, hspaceLen]
+    by_cases c1 : pwl > width
+    · -- the word is longer than the line
+      simp only [c1, ↓reduceIte, ScanRel]
+      have hsegw : WFS h0 seg := WFS_sub wr 0 k (Nat.zero_le _) hk
+      have hwordw : WFS h0 word := WFS_sub hsegw 0 _ (Nat.zero_le _) (by
+        show (trimRight (rd h seg)).length ≤ seg.len; rw [hseg, hseglen]; exact hwordle)
+      have hpos : 0 < h.length := Nat.lt_of_lt_of_le hn0 hn
+      have ge : Good n0 h emptySlice := good_empty n0 h hpos
+      have we : WFS h emptySlice := ⟨by simp [emptySlice], by simp [emptySlice]⟩
+      obtain ⟨fa, ga1, ga2⟩ := splitLongH_frame grow width word n0 word.len 0 h emptySlice st.token w hn ge gt
+      obtain ⟨ra1, ra2, wa1, wa2, sepa⟩ := splitLongH_refines grow width word h0 n0 hwordarr hwordw word.len 0 h
+        emptySlice st.token w (by omega) hn hfr ge gt we wt (Or.inr (Or.inl rfl))
+      have hw0 : rd h0 word = pword := by rw [← hword]; exact (read_frame (hfr _ hwordarr)).symm
+      have hne : decide (st.token.len > 0) = !(rd h st.token).isEmpty := by
+        have := read_length wt
+        cases hd : rd h st.token with
+        | nil => rw [hd] at this; simp at this; simp [← this]
+        | cons x xs => rw [hd] at this; simp at this; simp [← this]
+      rw [List.drop_zero, hw0, hne, show rd h emptySlice = [] from read_empty h, List.nil_append] at ra1
+      rw [List.drop_zero, hw0, hne] at ra2
+      -- s.rest = append(s.rest, trSpace...)
+      have hna : n0 ≤ a.1.length := Nat.le_trans hn fa.1
+      obtain ⟨fb, gb⟩ := append_frame grow a.1 a.2.1 (rd a.1 trSpace) n0 hna ga1
+      obtain ⟨rb, wb⟩ := append_read grow a.1 a.2.1 (rd a.1 trSpace) wa1 ga1.2
+      obtain ⟨ob1, ob2, ob3⟩ := append_other grow a.1 a.2.1 a.2.2 (rd a.1 trSpace) wa1 ga1.2 wa2 ga2.2 sepa
+      -- s.rest = append(s.rest, rest...)
+      have hnb : n0 ≤ b.1.length := Nat.le_trans hna fb.1
+      obtain ⟨rc, _⟩ := append_read grow b.1 b.2 (rd b.1 rest) wb gb.2
+      obtain ⟨oc1, _, _⟩ := append_other grow b.1 b.2 a.2.2 (rd b.1 rest) wb gb.2 ob2 (Nat.lt_of_lt_of_le ga2.2 fb.1) ob3
+      refine ⟨?_, ?_⟩
+      · show rd c.1 c.2 = _
+        rw [show rd c.1 c.2 = rd b.1 b.2 ++ rd b.1 rest from rc, show rd b.1 b.2 = rd a.1 a.2.1 ++ rd a.1 trSpace from rb,
+          hfrOld b.1 rest (fa.trans fb) hrestarr, hfrOld a.1 trSpace fa htrarr, hrest, htr, show rd a.1 a.2.1 = _ from ra1]
+      · show rd c.1 a.2.2 = _
+        rw [show rd c.1 a.2.2 = rd b.1 a.2.2 from oc1, show rd b.1 a.2.2 = rd a.1 a.2.2 from ob1, show rd a.1 a.2.2 = _ from ra2]
+    · simp only [c1, ↓reduceIte]
+      by_cases c2 : w + pwl > width
+      · -- the segment does not fit any more: the line ends before it
+        simp only [c2, ↓reduceIte, ScanRel]
+        exact ⟨hR, trivial⟩
+      · simp only [c2, ↓reduceIte]
+        rw [hpbr]
+        by_cases c3 : r.2 = true
+        · -- hard break: strip it, append the segment, return
+          simp only [c3, ↓reduceIte, ScanRel]
+          have hstrip : rd h seg' = stripBreak pseg := by
+            show rd h (match (rd h seg).getLast? with
+              | some l => if l.term = true then sub seg 0 (seg.len - 1) else seg
+              | none => seg) = stripBreak pseg
+            rw [hseg]
+            unfold stripBreak
+            cases hl : pseg.getLast? with
+            | none => exact hseg
+            | some l =>
+              simp only
+              split
+              · rw [read_sub h seg 0 (seg.len - 1) (by omega), hseg, List.drop_zero, Nat.sub_zero, hseglen,
+                  List.dropLast_eq_take, hpseglen]
+              · exact hseg
+          obtain ⟨f1, _⟩ := append_frame grow h st.token (rd h seg') n0 hn gt
+          obtain ⟨r1, _⟩ := append_read grow h st.token (rd h seg') wt gt.2
+          refine ⟨?_, ?_⟩
+          · show rd t1.1 rest = prest
+            rw [hfrOld t1.1 rest f1 hrestarr, hrest]
+          · show rd t1.1 t1.2 = _
+            rw [show rd t1.1 t1.2 = rd h st.token ++ rd h seg' from r1, hstrip]
+        · simp only [c3, Bool.false_eq_true, ↓reduceIte]
+          -- s.token = append(s.token, word...)
+          obtain ⟨f1, g1⟩ := append_frame grow h st.token (rd h word) n0 hn gt
+          obtain ⟨r1, w1'⟩ := append_read grow h st.token (rd h word) wt gt.2
+          have hw1 : w1 = pw := by show w + wordLen = w + pwl; rw [hwordLen]
+          rw [hw1]
+          have htok : rd t.1 t.2 = ptok := by
+            rw [show rd t.1 t.2 = rd h st.token ++ rd h word from r1, hword]
+          by_cases c4 : pw + psl > width
+          · simp only [c4, ↓reduceIte, ScanRel]
+            exact ⟨by show rd t.1 rest = prest; rw [hfrOld t.1 rest f1 hrestarr, hrest], htok⟩
+          · simp only [c4, ↓reduceIte]
+            -- s.token = append(s.token, trSpace...) and round again
+            have hn1 : n0 ≤ t.1.length := Nat.le_trans hn f1.1
+            obtain ⟨f2, g2⟩ := append_frame grow t.1 t.2 (rd t.1 trSpace) n0 hn1 g1
+            obtain ⟨r2, w2⟩ := append_read grow t.1 t.2 (rd t.1 trSpace) w1' g1.2
+            have := ih t2.1 ⟨rest, t2.2⟩ (pw + psl) (Nat.le_trans hn1 f2.1)
+              (fun j hj => ((f1.trans f2).2 j hj).trans (hfr j hj)) hrestarr hrestw g2 w2
+            have hr0 : rd h0 rest = prest := by
+              rw [← hrest]; exact (read_frame (hfr _ hrestarr)).symm
+            have ht2 : rd t2.1 t2.2 = ptok ++ ptr := by
+              rw [show rd t2.1 t2.2 = rd t.1 t.2 ++ rd t.1 trSpace from r2, htok, hfrOld t.1 trSpace f1 htrarr, htr]
+            simp only [] at this
+            rw [hr0, ht2] at this
+            exact this
 
 end VaxisModel.Lemmas.WrapHeap
